@@ -180,6 +180,22 @@ class GeometryCollection:
             return repr([g.geojson for g in self.geoms])
         if name == 'geoms':
             return self.geoms
+        if name in ('bounds', 'is_empty', 'wkt', 'envelope'):
+            def coords(o):
+                if isinstance(o, (list, tuple)) and o and all(isinstance(x, (int, float)) or hasattr(x, 'numerator') for x in o):
+                    yield o
+                elif isinstance(o, (list, tuple)):
+                    for x in o:
+                        yield from coords(x)
+            pts = [c for g in self.geoms for c in coords(g.geojson.get('coordinates', []))]
+            if name == 'is_empty':
+                return not pts
+            if name == 'wkt':
+                return 'GEOMETRYCOLLECTION ' + repr([g.geojson for g in self.geoms])
+            if not pts:
+                return ()
+            b = (min(p[0] for p in pts), min(p[1] for p in pts), max(p[0] for p in pts), max(p[1] for p in pts))
+            return b if name == 'bounds' else ('envelope',) + b
         raise AnalysisError(f'GeometryCollection.{name} not modelled', node)
 
     def abs_truth(self):
